@@ -2,7 +2,9 @@ package main
 
 import (
 	"bytes"
+	"crypto/rsa"
 	"fmt"
+	"math/big"
 	"runtime"
 	"strings"
 	"sync"
@@ -131,6 +133,21 @@ func runC18(c *Collector, r *Rng, thorough bool) {
 						func() string { return res(cs.MarshalCBOR()) },
 					}})
 				}
+			}
+		}
+		// --- a decoded message whose retained header bytes were discarded by truncation (raw[:0]: empty, not nil) ---
+		if b, err := m.MarshalCBOR(); err == nil {
+			var em cose.Sign1Message
+			if err := em.UnmarshalCBOR(b); err == nil {
+				em.Headers.RawProtected = em.Headers.RawProtected[:0]
+				em.Headers.RawUnprotected = em.Headers.RawUnprotected[:0]
+				ecs := &cose.Countersignature{Headers: cose.Headers{RawProtected: []byte{}, RawUnprotected: []byte{}, Protected: cose.ProtectedHeader{int64(1): int64(k.alg)}}, Signature: []byte{1, 2, 3}}
+				vals = append(vals, shared{"sign1-raw-truncated/" + k.alg.String(), func() string { return oSign1(&em) + oSigv((*cose.Signature)(ecs)) }, []func() string{
+					func() string { return res(nil, em.Verify(ext, vf)) },
+					func() string { return res(em.MarshalCBOR()) },
+					func() string { return res(nil, ecs.Verify(vf, &em, ext)) },
+					func() string { return res(ecs.MarshalCBOR()) },
+				}})
 			}
 		}
 		// --- COSE_Sign ---
@@ -272,6 +289,22 @@ func runC18(c *Collector, r *Rng, thorough bool) {
 		}
 		// --- one signer, distinct messages, concurrently ---
 		signer := k.signer()
+		var rawRSA *rsa.PrivateKey
+		rawSnap := func() string { return "" }
+		if rk, ok := k.priv.(*rsa.PrivateKey); ok && i%2 == 0 {
+			// the caller's RSA key assembled from its components (as read from a key store), nothing precomputed:
+			// signing reads it, concurrently, and leaves it as it is
+			rawRSA = &rsa.PrivateKey{PublicKey: rsa.PublicKey{N: new(big.Int).Set(rk.N), E: rk.E}, D: new(big.Int).Set(rk.D), Primes: []*big.Int{new(big.Int).Set(rk.Primes[0]), new(big.Int).Set(rk.Primes[1])}}
+			rawSnap = func() string {
+				return fmt.Sprint(rawRSA.N, rawRSA.E, rawRSA.D, rawRSA.Primes, rawRSA.Precomputed.Dp, rawRSA.Precomputed.Dq, rawRSA.Precomputed.Qinv, len(rawRSA.Precomputed.CRTValues))
+			}
+			if s2, err := cose.NewSigner(k.alg, rawRSA); err == nil {
+				signer = s2
+			} else {
+				rawRSA = nil
+			}
+		}
+		keyBefore := rawSnap()
 		yr := &yieldingReader{r: r.Fork()}
 		msgs := make([]*cose.Sign1Message, G)
 		errs := make([]error, G)
@@ -286,6 +319,9 @@ func runC18(c *Collector, r *Rng, thorough bool) {
 		}
 		wg.Wait()
 		c.Eval("concurrent-signers/"+k.alg.String(), fmt.Sprint(i), true)
+		if keyAfter := rawSnap(); keyAfter != keyBefore {
+			c.Fail("C18/signer-key-modified", "signing wrote to the caller's RSA private key (shared by every goroutine that signs with this signer)", map[string]any{"alg": k.alg.String(), "before": trunc(keyBefore, 200), "after": trunc(keyAfter, 200)})
+		}
 		for g := 0; g < G; g++ {
 			if errs[g] != nil {
 				c.Fail("C18/concurrent-sign-error", "concurrent Sign with a shared signer failed: "+errs[g].Error(), map[string]any{"alg": k.alg.String()})
@@ -443,6 +479,11 @@ func runC19(c *Collector, r *Rng, thorough bool) {
 				if out, err := dst.encode(); err == nil {
 					outputs = append(outputs, out)
 				}
+				if msg := c19Edited(kind, in); msg != "" {
+					c.Fail("C19/history-dependent", fmt.Sprintf("step %d: %s", s, msg), map[string]any{"kind": kind, "data": hx(in)})
+					failed = true
+					break
+				}
 				// a copy of the value taken now must not be affected by later decodes
 				cp := dst.copyRender()
 				copies = append(copies, cp)
@@ -538,6 +579,93 @@ func hexList(bs [][]byte) []string {
 }
 
 // dest: one reusable destination variable per decoder kind
+// c19Edited: the application decodes a message, edits the decoded header maps (not the retained bytes), and later
+// decodes into the same variable another message whose header bytes happen to be the same (same sender, other
+// payload / signature): the variable must then hold exactly what a fresh decode of the second message gives.
+func c19Edited(kind string, in []byte) string {
+	w, err := refParseFull(in)
+	if err != nil {
+		return ""
+	}
+	body := w
+	if w.Maj == 6 {
+		body = w.Kids[0]
+	}
+	if body.Maj != 4 || len(body.Kids) < 3 {
+		return ""
+	}
+	last := body.Kids[len(body.Kids)-1]
+	if kind == "DSignMsg" {
+		last = body.Kids[2]
+	}
+	if last.Maj != 2 {
+		return ""
+	}
+	last.Str = append(append([]byte{}, last.Str...), 0x77)
+	last.Width = pickW(uint64(len(last.Str)), -1)
+	in2 := w.Ser()
+	editH := func(h *cose.Headers) {
+		if h.Protected != nil {
+			h.Protected[polluteLabel] = "edited"
+			delete(h.Protected, int64(1))
+		}
+		if h.Unprotected != nil {
+			h.Unprotected[polluteLabel] = "edited"
+			delete(h.Unprotected, int64(4))
+		}
+	}
+	var used, fresh string
+	var e1, e2 error
+	switch kind {
+	case "DSign1":
+		var m, f cose.Sign1Message
+		if m.UnmarshalCBOR(append([]byte{}, in...)) != nil {
+			return ""
+		}
+		editH(&m.Headers)
+		e1, e2 = m.UnmarshalCBOR(append([]byte{}, in2...)), f.UnmarshalCBOR(append([]byte{}, in2...))
+		used, fresh = oSign1(&m), oSign1(&f)
+	case "DSign1U":
+		var m, f cose.UntaggedSign1Message
+		if m.UnmarshalCBOR(append([]byte{}, in...)) != nil {
+			return ""
+		}
+		editH(&m.Headers)
+		e1, e2 = m.UnmarshalCBOR(append([]byte{}, in2...)), f.UnmarshalCBOR(append([]byte{}, in2...))
+		used, fresh = oSign1((*cose.Sign1Message)(&m)), oSign1((*cose.Sign1Message)(&f))
+	case "DSignMsg":
+		var m, f cose.SignMessage
+		if m.UnmarshalCBOR(append([]byte{}, in...)) != nil {
+			return ""
+		}
+		editH(&m.Headers)
+		for _, sg := range m.Signatures {
+			if sg != nil {
+				editH(&sg.Headers)
+			}
+		}
+		e1, e2 = m.UnmarshalCBOR(append([]byte{}, in2...)), f.UnmarshalCBOR(append([]byte{}, in2...))
+		used, fresh = oSignMsg(&m), oSignMsg(&f)
+	case "DSignature":
+		var m, f cose.Signature
+		if m.UnmarshalCBOR(append([]byte{}, in...)) != nil {
+			return ""
+		}
+		editH(&m.Headers)
+		e1, e2 = m.UnmarshalCBOR(append([]byte{}, in2...)), f.UnmarshalCBOR(append([]byte{}, in2...))
+		used, fresh = oSigv(&m), oSigv(&f)
+	default:
+		return ""
+	}
+	if (e1 == nil) != (e2 == nil) {
+		return fmt.Sprintf("a message with the same header bytes as the one decoded before (whose decoded maps the application had edited) is decoded with err=%v into the used variable and err=%v into a fresh one", e1, e2)
+	}
+	if e1 == nil && used != fresh {
+		return "decoding a message with the same header bytes as the previous one into a variable whose decoded maps had been edited gives " + trunc(used, 300) + ", a fresh decode gives " + trunc(fresh, 300)
+	}
+	return ""
+}
+
 type dest struct {
 	decode     func([]byte) error
 	render     func() string
